@@ -498,7 +498,105 @@ Section Oracle.
     - rewrite Hf, rule_runs_on_spec, Hg, Hr. cbn.
       destruct k; try reflexivity. apply Ha. reflexivity.
   Qed.
+
+  (* ---- language server: the path-based and the URI-based call site see the same relative name *)
+
+  Lemma trim_prefix_app_both a x y : trim_prefix (a ++ x) (a ++ y) = if has_prefix x y then trim_prefix x y else a ++ x.
+  Proof.
+    destruct (has_prefix x y) eqn:E.
+    - apply has_prefix_spec in E. destruct E as [t ->].
+      rewrite trim_prefix_app, app_assoc, trim_prefix_app. reflexivity.
+    - unfold trim_prefix. destruct (drop_prefix (a ++ x) (a ++ y)) as [t|] eqn:D; [|reflexivity].
+      apply drop_prefix_spec in D. rewrite <- app_assoc in D. apply app_inv_head in D.
+      assert (H : has_prefix x y = true) by (apply has_prefix_spec; exists t; exact D). congruence.
+  Qed.
+
+  Lemma has_suffix_app_nonempty a y c : y <> [] -> has_suffix (a ++ y) [c] = has_suffix y [c].
+  Proof.
+    intros Hy. unfold has_suffix. rewrite rev_app_distr.
+    destruct (rev y) as [|z zs] eqn:E.
+    - apply (f_equal (@rev N)) in E. rewrite rev_involutive in E. contradiction.
+    - cbn. reflexivity.
+  Qed.
+
+  Lemma go_rel_uri_path a x y :
+    y <> [] -> has_prefix x (go_norm_prefix y) = true ->
+    go_rel (a ++ x) (a ++ y) = go_rel x y.
+  Proof.
+    intros Hy Hp. rewrite !go_rel_trim. unfold go_norm_prefix in *.
+    rewrite (has_suffix_app_nonempty a y SLASH Hy).
+    destruct (has_suffix y [SLASH]).
+    - rewrite trim_prefix_app_both, Hp. reflexivity.
+    - rewrite <- app_assoc, trim_prefix_app_both, Hp. reflexivity.
+  Qed.
+
+  Notation lsp_ignore_uri := (lsp_ignore_uri glob_ok glob_match).
+  Notation lsp_filtered_modules := (lsp_filtered_modules glob_ok glob_match).
+
+  (* a .rego file below a non-empty workspace root: ignoreURI says "ignored" exactly when
+     getFilteredModules drops it (every pattern compiling) *)
+  Lemma lsp_call_sites_agree rootp r ignore uris kept :
+    let root_uri := file_scheme ++ rootp in
+    let u := file_scheme ++ rootp ++ [SLASH] ++ r in
+    rootp <> [] -> has_suffix rootp [SLASH] = false ->
+    has_suffix u dot_rego = true -> all_compile ignore -> is_stdin uris = false ->
+    lsp_filtered_modules root_uri ignore uris = Some kept ->
+    In u uris ->
+    (lsp_ignore_uri root_uri ignore u = true <-> ~ In u kept).
+  Proof.
+    intros root_uri u Hne Hs Hrego Hc Hstd Hk Hin.
+    assert (Hrel : go_rel u root_uri = go_rel (rootp ++ [SLASH] ++ r) rootp).
+    { unfold u, root_uri. apply go_rel_uri_path; [exact Hne|].
+      unfold go_norm_prefix. rewrite Hs. rewrite app_assoc. apply has_prefix_app. }
+    unfold Exclude.lsp_filtered_modules in Hk.
+    rewrite (filter_ignored_paths_exact _ _ _ Hstd Hc) in Hk. injection Hk as <-.
+    unfold Exclude.lsp_ignore_uri. rewrite Hrego. cbn [negb orb].
+    assert (Hp : uri_to_path u = rootp ++ [SLASH] ++ r) by (unfold uri_to_path, u; apply trim_prefix_app).
+    assert (Hr : uri_to_path root_uri = rootp) by (unfold uri_to_path, root_uri; apply trim_prefix_app).
+    rewrite Hp, Hr.
+    assert (Hstd1 : is_stdin (@cons str (rootp ++ [SLASH] ++ r) (@nil str)) = false).
+    { unfold is_stdin. destruct (str_eqb_spec (rootp ++ [SLASH] ++ r) [45]) as [E|_]; [|reflexivity].
+      destruct rootp as [|c [|c' rp]]; [contradiction|discriminate E|discriminate E]. }
+    pose proof (filter_ignored_paths_exact (@cons str (rootp ++ [SLASH] ++ r) (@nil str)) ignore rootp Hstd1 Hc) as E.
+    cbn [filter] in E. rewrite <- Hrel in E.
+    destruct (matches_any ignore (go_rel u root_uri)) eqn:Em; cbn [negb] in E.
+    - rewrite E.
+      split; [intros _ H; apply filter_In in H; destruct H as [_ H]; rewrite Em in H; discriminate | reflexivity].
+    - rewrite E.
+      split; [discriminate | intros H; exfalso; apply H; apply filter_In; split; [exact Hin|rewrite Em; reflexivity]].
+  Qed.
 End Oracle.
+
+(* ------------------------------------------------------------------ how the file is spelled (CLI)
+   The matchers see the name as given. For a file with root-relative path r under the root d: *)
+
+(* absolute spelling d/r: the matchers see r *)
+Lemma spelling_abs d r : has_suffix d [SLASH] = false -> go_rel (d ++ [SLASH] ++ r) d = r.
+Proof. intros H. destruct (go_rel_below_dir d r) as [E|E]; [exact E|congruence]. Qed.
+
+(* spelled relative to the root itself (working directory = root): the matchers see r *)
+Lemma spelling_relative_at_root d r : has_prefix r (go_norm_prefix d) = false -> go_rel r d = r.
+Proof.
+  intros H. rewrite go_rel_trim. unfold trim_prefix.
+  destruct (drop_prefix r (go_norm_prefix d)) as [t|] eqn:E; [|reflexivity].
+  apply drop_prefix_spec in E.
+  assert (has_prefix r (go_norm_prefix d) = true) by (apply has_prefix_spec; exists t; exact E).
+  congruence.
+Qed.
+
+(* spelled relative to another working directory d/sub: the matchers see r' although the file is
+   sub/r' — a root-anchored pattern then drops a file it does not match (literal engine) *)
+Lemma spelling_relative_elsewhere_refuted :
+  exists (d sub r' p : str),
+    let truerel := sub ++ [SLASH] ++ r' in
+    let lit := fun e f : str => str_eqb e f in
+    go_rel r' d = r' /\ r' <> truerel /\
+    matches (fun _ => true) lit p truerel = false /\
+    go_filter_ignored_paths (fun _ => true) lit [r'] [p] d = Some [].
+Proof.
+  exists [SLASH; 119], [97], [98], [SLASH; 98]. vm_compute.
+  repeat split; try reflexivity; discriminate.
+Qed.
 
 (* ------------------------------------------------------------------ pinned code: the empty pattern *)
 
